@@ -164,7 +164,16 @@ func pivot2Run(x *run, pw *pivot2World, scheme string, seed int64) {
 		x.mu.Lock()
 		x.served, x.cutAt = 0, 0
 		if target == early {
-			x.cutAt = 2 + r.Intn(25)
+			// how much of the early state is downloaded before the pivot moves decides how much work
+			// the access-list catch-up has: sometimes little, mostly a lot, sometimes everything
+			switch r.Intn(4) {
+			case 0:
+				x.cutAt = 2 + r.Intn(25)
+			case 1:
+				x.cutAt = 0 // the first pivot completes, then the pivot moves
+			default:
+				x.cutAt = 30 + r.Intn(200)
+			}
 		} else if cycle < 3 && r.Intn(2) == 0 {
 			x.cutAt = 3 + r.Intn(80) // a restart during catch-up / later download
 		}
